@@ -49,6 +49,28 @@ CHECKS['C06'] = dict(
     technique='contract-based deductive verification: PyVC per-pattern symbolic execution with loop-summary rule + z3; bounded run-time contract as stand-in for random patterns',
 )
 
+CHECKS['C03'] = dict(
+    category='proof',
+    text=('Every function in en.combinators is symbolically executed (real ast) against one generic postcondition: result is None or Justified(x, y, result), '
+          'Justified looked up in a schema table keyed by the (label, symbol) the result carries (patterns, result skeleton, modifier rule, features-from-inputs, '
+          'N/NP side condition, head direction), for all well-formed category pairs; Unification enters only through its contract (C06). The converse clause '
+          '(identical matched parts always yield the result) is proved per schema; apply_binary_rules is proved to call an arbitrary list element exactly once on '
+          'the nb-erased pair, to collect exactly the non-None results in order and to gate on the (X,nb)-erased pair. A BOUNDED cross-check runs the real rules on '
+          'the shipped inventories / seen rules / derived and synthetic categories against an executable twin of the table.'),
+    design_ref='DESIGN.md section 4, C03',
+    note=TB_PY + '; the schema tables are the oracle; INJ (C05) for literal comparisons; Unification contract (C06)',
+    technique='contract-based deductive verification: PyVC + z3 against schema-table postconditions; bounded inventory cross-check',
+)
+CHECKS['C04'] = dict(
+    category='proof',
+    text=('Same construction as C03 over ja.combinators (>, <, >B, <B1..<B4, >Bx1..>Bx3, SSEQ; head right), plus apply_unary_rules: results are exactly the '
+          'configured targets in order (map-loop rule over an arbitrary table) and the label is the one the statement assigns to the mod value and the number of '
+          'missing arguments (ADNext/ADNint/ADV0/ADV1/ADV2). Bounded cross-check on the shipped Japanese inventory.'),
+    design_ref='DESIGN.md section 4, C04',
+    note=TB_PY + '; the schema tables are the oracle; Unification contract (C06); inputs over the three-part feature system',
+    technique='contract-based deductive verification: PyVC + z3 against schema-table postconditions; bounded inventory cross-check',
+)
+
 NA_REASON = {}
 
 
